@@ -2151,6 +2151,22 @@ TARGETS += [
          doc='TRACE translation of the statements of `fast_binary_dilate_erode_2d` that build the offset list (`By`, `Bx`, `Cy`, `Cx` and the '
              'two nested loops): the value is the content of `positions` (`dy`, `dx`, `dy`, `dx`, …) in push order; `bc_ y x` stands for '
              '`Bc.at(y, x)`, `Bc.dim(d)` reads the list `bdims`, `Nx` is `array.dim(1)`; `continue` is a jump to the end of the loop body'),
+    # the per-row part of the fast path: the row clamp of `dy` and the length `n` of the main loop
+    dict(key='fast_row_dy', file='mahotas/_morph.cpp', func='fast_binary_dilate_erode_2d', pick='plain', lean='fast_row_dy',
+         params=[], raw_params=True, c_param_names=['res', 'array', 'Bc', 'is_erosion'],
+         extra_params=[('y', 'int'), ('Ny', 'int'), ('pdy', 'int'), ('pdx', 'int')],
+         env_kinds={'y': 'int', 'Ny': 'int', 'pdy': 'int', 'pdx': 'int'}, ret_kind='int',
+         select=dict(kind='from-decl', var='dy', of=2, nth=1, count=5), result='dy',
+         rename_seq=[(('positions', '[', '2', '*', 'j', ']'), 'pdy'), (('positions', '[', '2', '*', 'j', '+', '1', ']'), 'pdx')],
+         doc='the statements `dy = positions[2*j]; dx = positions[2*j + 1]; if ((y + dy) < 0) dy = -y; if ((y + dy) >= Ny) dy = -y+(Ny-1);` '
+             'of the row loop of `fast_binary_dilate_erode_2d`: the row offset after the clamp (`pdy`, `pdx` stand for the two entries of `positions`)'),
+    dict(key='fast_row_n', file='mahotas/_morph.cpp', func='fast_binary_dilate_erode_2d', pick='plain', lean='fast_row_n',
+         params=[], raw_params=True, c_param_names=['res', 'array', 'Bc', 'is_erosion'],
+         extra_params=[('y', 'int'), ('Ny', 'int'), ('Nx', 'int'), ('pdy', 'int'), ('pdx', 'int')],
+         env_kinds={'y': 'int', 'Ny': 'int', 'Nx': 'int', 'pdy': 'int', 'pdx': 'int'}, ret_kind='int',
+         select=dict(kind='from-decl', var='dy', of=2, nth=1, count=6), result='n',
+         rename_seq=[(('positions', '[', '2', '*', 'j', ']'), 'pdy'), (('positions', '[', '2', '*', 'j', '+', '1', ']'), 'pdx')],
+         doc='the same statements and `n = Nx - t_abs(dx);`: the number of iterations of the main loop of a row'),
     dict(key='rank_currank', file='mahotas/_convolve.cpp', func='rank_filter', pick='generic', tparams=['T'], lean='rank_currank',
          params=[], raw_params=True, c_param_names=['res', 'array', 'Bc', 'rank', 'mode', 'cval'],
          extra_params=[('n', 'int'), ('N2', 'int'), ('rank', 'int')], env_kinds={'n': 'int', 'N2': 'int', 'rank': 'int'},
@@ -2402,11 +2418,13 @@ def select_stmts(pr: Parser, where, sel):
             pr.i = a
             if pr.try_type() is not None and pr.i == i:
                 starts.append(a)
-        if len(starts) != 1:
-            raise TranslationError(f'{where}: {len(starts)} declarations of the local `{sel["var"]}` found, expected exactly one')
-        pr.i = starts[0]
+        want = sel.get('of', 1)                 # `of` = how many declarations of that name the function has, `nth` = which one
+        if len(starts) != want:
+            raise TranslationError(f'{where}: {len(starts)} declarations of the local `{sel["var"]}` found, expected exactly {want}')
+        st = starts[sel.get('nth', 0)]
+        pr.i = st
         out = [pr.stmt() for _ in range(sel['count'])]
-        pr.sel_span = (toks[starts[0]].pos, toks[pr.i - 1].end)
+        pr.sel_span = (toks[st].pos, toks[pr.i - 1].end)
         return out
     if sel['kind'] == 'assign-to':
         starts = [i for i, t in enumerate(toks) if t.kind == 'id' and t.text == sel['var'] and i + 1 < len(toks) and toks[i + 1].text == '='
